@@ -5,7 +5,7 @@ U = ['UNIT_H="mpd.h"']
 OBS = []
 for fam, nm, nb, what in [(0, 'fix_nil_bool', 3, 'fixint / nil / bool / 0xC1'), (1, 'ints', 10, 'uint8..64 / int8..64'), (2, 'floats', 10, 'float32 / float64'),
                           (3, 'str', 8, 'fixstr / str8 / str16 / str32'), (4, 'bin_ext', 9, 'bin8-32 / ext8-32 / fixext1-16'), (5, 'containers', 6, 'fixarray / array16-32 / fixmap / map16-32 headers')]:
-    OBS.append(Ob(['C09', 'C03', 'C15', 'C16', 'C06', 'C07'], 'md_variant_' + nm, 'mpd', 'harness/mpd.c', 'h_md_variant', defs=U + ['NB=%d' % nb, 'FAMILY=%d' % fam], unwind=nb + 3, cap=400, hunwind=20, fs='none',
+    OBS.append(Ob(['C09', 'C03', 'C15', 'C16', 'C06', 'C07'], 'md_variant_' + nm, 'mpd', 'harness/mpd.c', 'h_md_variant', defs=U + ['NB=%d' % nb, 'FAMILY=%d' % fam], unwind=nb + 3, cap=900, hunwind=20, fs='none',
         desc='MsgPackDeserializer::parseVariant == reference decoder on the %s codes: value/width/sign, bit-exact floats, bytes verbatim, truncation at every position => IncompleteInput, container headers hand count and unchanged limit to the (cut) readers' % what,
         bound='every code of the family x all continuations up to %d bytes x every truncation length; arena allocator' % nb))
 OBS.append(Ob(['C09', 'C03', 'C16', 'C07'], 'md_key', 'mpd', 'harness/mpd.c', 'h_md_key', defs=U + ['NB=20'], unwind=23, cap=400, hunwind=24, fs='none',
